@@ -2,6 +2,7 @@ package main
 
 import (
 	"fmt"
+	"go/constant"
 	"go/token"
 
 	"golang.org/x/tools/go/ssa"
@@ -58,36 +59,30 @@ func r091(c *Ctx, r *R) {
 	// Discard = !Valid || Expired()
 	d := c.fn(r, "api", "Metric.Discard")
 	if d != nil {
-		usesValid, usesExpired := false, false
-		instrs(d, func(i ssa.Instruction) {
-			if u, ok := i.(*ssa.UnOp); ok && u.Op == token.MUL {
-				if fa, ok := u.X.(*ssa.FieldAddr); ok && fieldOfAddr(fa).Name() == "Valid" {
-					usesValid = true
-				}
-			}
-			if ci, ok := i.(ssa.CallInstruction); ok && nameMatches(callName(ci.Common()), "api.Metric).Expired") {
-				usesExpired = true
-			}
-		})
-		// evaluate the truth table structurally: returns true when Valid is false
-		okTable := true
-		for _, lf := range returnLeaves(d, 0) {
-			if k, isK := constOf(lf.Val); isK {
-				// constant true must be under Valid == false
-				if k != nil && boolVal(k) {
-					if !lf.GuardedBy(func(g Guard) bool { return gField(g, "Valid", false) }) {
-						okTable = false
+		// truth table, evaluated on the SSA whatever way it is written:
+		// the Valid field load and the Expired() call are the two inputs
+		okTable, why := true, ""
+		for _, valid := range []bool{false, true} {
+			for _, expired := range []bool{false, true} {
+				_, v, ok := ssaEval(d, func(v ssa.Value) (constant.Value, bool) {
+					if u, ok := v.(*ssa.UnOp); ok && u.Op == token.MUL {
+						if fa, ok := u.X.(*ssa.FieldAddr); ok && fieldOfAddr(fa).Name() == "Valid" {
+							return constant.MakeBool(valid), true
+						}
 					}
-				} else {
-					okTable = false // a constant false would hide expiry
+					if ci, ok := v.(*ssa.Call); ok && nameMatches(callName(ci.Common()), "api.Metric).Expired") {
+						return constant.MakeBool(expired), true
+					}
+					return nil, false
+				})
+				want := !valid || expired
+				if !ok || v.Kind() != constant.Bool || constant.BoolVal(v) != want {
+					okTable = false
+					why += fmt.Sprintf(" [Valid=%v Expired()=%v: want %v, evaluated=%v]", valid, expired, want, ok)
 				}
-				continue
-			}
-			if call, _ := originCall(lf.Val); call == nil || !nameMatches(callName(call.Common()), "api.Metric).Expired") {
-				okTable = false
 			}
 		}
-		r.Check(usesValid && usesExpired && okTable, "discard:definition", d.Pos(), "Discard() = !Valid || Expired()", "Metric.Discard no longer is !Valid || Expired()")
+		r.Check(okTable, "discard:definition", d.Pos(), "Discard() = !Valid || Expired() on all four input combinations (evaluated on the SSA)", "Metric.Discard no longer is !Valid || Expired():"+why)
 	}
 	// Expired compares now with the Expire field
 	e := c.fn(r, "api", "Metric.Expired")
